@@ -57,6 +57,36 @@ def limit_cases(ctx, n):
     return out
 
 
+def cap_cases(ctx, n):
+    """the documented caps on assembled headers: one name repeated beyond HTP_MAX_HEADERS_REPETITIONS with OTHER repeated names in between (the
+    budget is per transaction and direction, not per name), and folded lines around HTP_MAX_HEADER_FOLDED"""
+    rng = ctx.rng
+    out = []
+    reps = vf.gen_const("c_HTP_MAX_HEADERS_REPETITIONS") if "c_HTP_MAX_HEADERS_REPETITIONS" in open(os.path.join(vf.COQ, "Gen", "Generated.v")).read() else 64
+    for _ in range(n):
+        block = b""
+        first = rng.randint(reps - 3, reps + 8)
+        block += b"X-A: v\r\n" * first
+        for k in range(rng.randint(0, 6)):
+            nm = b"X-B%d" % k
+            block += (nm + b": 1\r\n") * rng.choice([1, 2, 2, 3])
+            block += b"X-A: w\r\n" * rng.randint(0, 12)
+        if rng.random() < 0.5:
+            rq = b"GET / HTTP/1.1\r\nHost: a\r\n" + block + b"\r\n"
+            rs = b"HTTP/1.1 200 OK\r\nContent-Length: 0\r\n\r\n"
+        else:
+            rq = b"GET / HTTP/1.1\r\nHost: a\r\n\r\n"
+            rs = b"HTTP/1.1 200 OK\r\n" + block + b"Content-Length: 0\r\n\r\n"
+        ops = ["O"]
+        for piece in sconnp.cut(rq, sconnp.split_points(rq, rng, rng.choice(["whole", "random"]))):
+            ops.append("Q" + piece.hex())
+        for piece in sconnp.cut(rs, sconnp.split_points(rs, rng, rng.choice(["whole", "random"]))):
+            ops.append("S" + piece.hex())
+        ops.append("C")
+        out.append(sconnp.case(ops, cfg=sconnp.cfg_str(p=rng.choice([0, 1, 9]))))
+    return out
+
+
 def steady_state(ctx):
     exe = vf.build_exe(ctx, "steady_driver", os.path.join(vf.HARNESS, "steady_driver.c"), "plain",
                        wrap=("malloc", "calloc", "realloc", "free", "strdup"))
@@ -77,7 +107,7 @@ def steady_state(ctx):
 def check(ctx):
     pr = vf.proof_step(ctx, "Properties_C10")
     n = 6000 if ctx.thorough() else 1500
-    cases = limit_cases(ctx, n) + cp.general_cases(ctx, n // 2, n // 2) + cp.corpus_cases(ctx, chunkings=1)
+    cases = limit_cases(ctx, n) + cap_cases(ctx, 80 if not ctx.thorough() else 400) + cp.general_cases(ctx, n // 2, n // 2) + cp.corpus_cases(ctx, chunkings=1)
     impl, model, verdicts, traces, crash = cp.correspond_and_oracle(ctx, cases)
     if crash:
         vf.report_crash(ctx, "S-connp", cases, crash)
@@ -98,10 +128,10 @@ def check(ctx):
         # whose observation differs and keep feeding that direction with unterminated filler (the way a limit would be exceeded if it no longer held)
         ext = []
         for i in mm[:8]:
-            a, b = pi[i].split("|"), pm[i].split("|")
+            a, b = pi[i].split("||")[0].split("|"), pm[i].split("||")[0].split("|")
             k = next((j for j in range(min(len(a), len(b))) if a[j] != b[j]), None)
             if k is None:
-                continue
+                continue          # the per-call observations agree: the difference is in the assembled header tables
             f = cases[i].split("\t")
             ops = f[3].split(",")
             d = ops[k][0] if ops[k][0] in "QS" else "S"
@@ -120,6 +150,25 @@ def check(ctx):
                 vf.violation(ctx, "oracle-ext-%d" % j, {"kind": "limit-exceeded-by-implementation", "suite": "S-connp", "case": c, "implementation": sconnp.project(out[0], PROP)[-3000:] if out else "",
                                                         "found_by": "extension search from a history on which library and model disagree",
                                                         "oracle": "Spec/SConnp.v chk_C10 (extracted): in_buf_size, out_buf_size <= hard; #tx <= max_tx + 1", "theorem": "Properties_C10.v"})
+    # the documented cap on repetitions, read off the library's dump: no header value is merged from more than HTP_MAX_HEADERS_REPETITIONS + 2 pieces
+    import re as _re
+    capn = vf.gen_const("c_HTP_MAX_HEADERS_REPETITIONS")
+    ncap = 0
+    for i, p in enumerate(pi):
+        hdrs = p.split("||")[1] if "||" in p else ""
+        for tbl in _re.findall(r"\[([^\]]*)\]", hdrs):
+            for h in tbl.split("/"):
+                f = h.split(":")
+                if len(f) >= 2 and f[1] not in ("-", "NULL"):
+                    pieces = f[1].count("2c20") + 1          # values are joined with ", "
+                    if pieces > capn + 2:
+                        ncap += 1
+                        if ncap <= 2:
+                            failing.append(i)
+                            vf.violation(ctx, "cap-%d" % i, {"kind": "repeated-header-exceeds-documented-cap", "suite": "S-connp", "case": cases[i], "pieces_merged": pieces,
+                                                             "cap": capn, "header_name_hex": f[0]})
+                        break
+    ctx.cov["suites"]["S-connp"]["repetition_cap_failures"] = ncap
     if mm and not failing:
         i = mm[0]
         vf.violation(ctx, "corr-%d" % i, {"kind": "correspondence-broken", "suite": "S-connp", "case": cases[i], "projection": "rc, #tx, in_buf_size, |in_header|, out_buf_size, |out_header| after every call",
